@@ -16,6 +16,8 @@ Monitors (one counter each):
 * diff_no_change / diff_unknown_change   Diff.no_change / unknown_change: primal structure kept,
                    every leaf Diff(primal, tag); round trips through tree_primal / tree_tangent
 * diff_tree_diff   Diff.tree_diff(P, TT) for random per-leaf tangents + its two inverses
+* diff_under_jit   no_change / unknown_change / tree_primal / tree_tangent / static checks applied to
+                   traced leaves inside jax.jit: python-bool checks at trace time, outputs == reference
 * py_flatten       leaves == the generator's dynamic leaves (multiset), no static sentinel among
                    the leaves, unflatten(flatten) == T, tree_map(token) == reference map,
                    static fields live in the treedef (changing one changes the treedef, changing
@@ -44,7 +46,7 @@ CONFIG = {
     "rule": "random nested pytrees from a bounded grammar (depth<=3 quick / 4 thorough): tuples, lists, dicts, None, empty containers, jax/numpy arrays of 5 dtypes x 5 shapes, python scalars, 33 generated Pytree dataclasses (all static/dynamic layouts of 1..4 fields + defaulted fields), Diff leaves with NoChange/UnknownChange (primal a leaf or a small pytree), Mask, ChoiceMap (Static/Indexed/Or), Const, Closure. A case is non-trivial when the tree holds at least one Diff or one Pytree dataclass and at least 2 leaves; distinct by (monitor group, structural signature of the tree).",
     "reach_anchors": [f"{INC}:Diff.tree_diff", f"{INC}:Diff.tree_primal", f"{INC}:Diff.tree_tangent", f"{INC}:Diff.no_change", f"{INC}:Diff.unknown_change", f"{INC}:Diff.static_check_no_change", f"{INC}:Diff.static_check_tree_diff", f"{PT}:Pytree.const", f"{PT}:Pytree.tree_const", f"{PT}:Pytree.tree_const_unwrap", f"{PT}:Pytree.partial", f"{PT}:Closure.__call__", f"{PT}:Const.unwrap"],
     "reach_required": [f"{INC}:Diff.tree_diff", f"{INC}:Diff.tree_primal", f"{INC}:Diff.tree_tangent", f"{INC}:Diff.no_change", f"{INC}:Diff.unknown_change", f"{INC}:Diff.static_check_no_change", f"{INC}:Diff.static_check_tree_diff", f"{PT}:Pytree.const", f"{PT}:Pytree.partial", f"{PT}:Closure.__call__"],
-    "counters_required": ["diff_primal", "diff_tangent", "diff_nochange", "diff_nochange_strict", "diff_treediff", "diff_no_change", "diff_unknown_change", "diff_tree_diff", "py_flatten", "py_static_in_treedef", "py_jit", "py_vmap", "const_cases", "closure_cases"],
+    "counters_required": ["diff_primal", "diff_tangent", "diff_nochange", "diff_nochange_strict", "diff_treediff", "diff_no_change", "diff_unknown_change", "diff_tree_diff", "diff_under_jit", "py_flatten", "py_static_in_treedef", "py_structure_equivalence", "py_jit", "py_vmap", "const_cases", "closure_cases"],
     "assumptions": ["jax.tree_util flatten/unflatten/tree_structure, jax.jit and jax.vmap are the trusted base", "the tangent assigned by tree_tangent to a non-Diff leaf is not judged (code: NoChange, docstring: UnknownChange); static_check_no_change on a tree mixing plain leaves with all-NoChange Diffs is only required to agree with tree_tangent", "Diff with a non-leaf primal is generated (15% of Diffs) although the docstring recommends Diffs as leaves; only primal/tangent extraction is judged on it"],
 }
 
@@ -194,8 +196,28 @@ def diff_monitors(ctx, spec, T, P, info, trng):
                 used = seq[: len(info["leaves"])]
                 if bool(chk) != all(used):
                     _v(ctx, "static_check_no_change", on, "value", "after-tree_diff", f"got {chk}, tangents NoChange={used}", spec)
+    # -- the same helpers at trace time (leaves are tracers; the static checks must stay python bools)
+    if info["leaves"]:
+        seen = []
+
+        def under_jit(t):
+            d = Diff.unknown_change(t)
+            n = Diff.no_change(t)
+            seen.append((Diff.static_check_no_change(d), Diff.static_check_no_change(n), Diff.static_check_tree_diff(d), Diff.static_check_tree_diff(t)))
+            return Diff.tree_primal(d), d, n, Diff.tree_tangent(d)
+
+        try:
+            o_p, o_d, o_n, o_t = L.jax.jit(under_jit)(P)
+            ctx.count("diff_under_jit")
+            if seen[0] != (False, True, True, False):
+                _v(ctx, "static_checks", on, "value", "at-trace-time", f"(no_change(unknown), no_change(nochange), tree_diff(wrapped), tree_diff(plain)) = {seen[0]}", spec)
+            r = G.struct_eq(o_p, P, loose=True) or G.struct_eq(o_d, G.ref_wrap_all(P, L.UnknownChange), loose=True) or G.struct_eq(o_n, G.ref_wrap_all(P, L.NoChange), loose=True) or G.struct_eq(o_t, G.ref_map(lambda v: L.UnknownChange, P))
+            if r:
+                _v(ctx, "diff-helpers", on, "roundtrip", "through-jit", r, spec)
+        except Exception as e:  # noqa: BLE001
+            _v(ctx, "diff-helpers", on, "raises", "under-jit," + common.exc_mechanism(e), f"{type(e).__name__}: {e}"[:400], spec)
     nontrivial = (("diff" in kinds) or ("dc" in kinds)) and len(info["leaves"]) >= 2
-    ctx.evaluation(fingerprint=("diff", G.spec_signature(spec)), nontrivial=nontrivial, n=8)
+    ctx.evaluation(fingerprint=("diff", G.spec_signature(spec)), nontrivial=nontrivial, n=9)
 
 
 def _collect_tangents(tt):
@@ -305,6 +327,24 @@ def pytree_monitors(ctx, spec, T, info, gen_args):
         ok, shifted = _call(ctx, "tree_map", on, jtu.tree_map, lambda x: x, T, spec=spec)
         if ok and jtu.tree_structure(shifted) != treedef:
             _v(ctx, "tree_structure", on, "treedef", "identity-map-changes-treedef", "tree_map(identity) changed the treedef", spec)
+    # Pytree.static_check_tree_structure_equivalence / Pytree.treedef
+    eqv = L.Pytree.static_check_tree_structure_equivalence
+    ok, same3 = _call(ctx, "static_check_tree_structure_equivalence", on, eqv, [T, back if back is not None else T, G.ref_map(tok, T)], spec=spec)
+    if ok:
+        ctx.count("py_structure_equivalence")
+        if same3 is not True:
+            _v(ctx, "static_check_tree_structure_equivalence", on, "value", "same-structure-trees", f"returned {same3!r}", spec)
+        if info2["bumped"]:
+            ok, diff2 = _call(ctx, "static_check_tree_structure_equivalence", on, eqv, [T, T2], spec=spec)
+            if ok and diff2 is not False:
+                _v(ctx, "static_check_tree_structure_equivalence", on, "value", "static-field-differs", f"returned {diff2!r}", spec)
+        ok, wrapped = _call(ctx, "static_check_tree_structure_equivalence", on, eqv, [T, (T,)], spec=spec)
+        if ok and wrapped is not False:
+            _v(ctx, "static_check_tree_structure_equivalence", on, "value", "extra-container-level", f"returned {wrapped!r}", spec)
+    if G._is_pytree_dc(T):
+        ok, td_m = _call(ctx, "Pytree.treedef", on, T.treedef, spec=spec)
+        if ok and td_m != treedef:
+            _v(ctx, "Pytree.treedef", on, "treedef", "vs-tree_structure", "method and jax.tree_util disagree", spec)
     del statics
 
     # -- jit identity with trace-time inspection
@@ -533,8 +573,8 @@ def closure_cases(ctx, n):
 def run(ctx):
     common.import_repo()
     G.Lib.init()
-    n_trees = ctx.pick(2400, 32000)
-    budget = ctx.pick(150.0, 1500.0)
+    n_trees = ctx.pick(2400, 20000)
+    budget = ctx.pick(150.0, 800.0)
     max_depth = ctx.pick(3, 4)
     const_cases(ctx, ctx.pick(48, 400))
     closure_cases(ctx, ctx.pick(32, 200))
